@@ -44,6 +44,18 @@ class CountingFile:
         self.pos += len(out)
         return out
 
+    def readinto(self, b):
+        """as io.RawIOBase.readinto: fills b with what read(len(b)) returns, reports how many bytes that was"""
+        out = self.read(len(b))
+        b[:len(out)] = out
+        return len(out)
+
+    def readable(self):
+        return True
+
+    def seekable(self):
+        return True
+
     def close(self):
         self.closed = True
 
